@@ -265,6 +265,11 @@ def build_tset(c, exp, conv):
     if conv == 'xy2traceset-invvar':
         kw['invvar'] = w
         return xy2traceset(xpos, ypos, **kw), xpos
+    # this convention passes integral jump parameters as Python ints (xjumplo=0 rather than 0.0)
+    if jump:
+        for nme, v in zip(('xjumplo', 'xjumphi', 'xjumpval'), (j['lo'], j['hi'], j['val'])):
+            if v[1] == 1:
+                kw[nme] = int(v[0])
     # the zero-weight points go through inmask, the other weights (if not all one) through invvar
     if conv == 'TraceSet-inmask':
         kw['inmask'] = w > 0
@@ -484,10 +489,24 @@ def grid_summary(xg, nt):
             'unit': bool((np.diff(xg, axis=1) == 1).all())}
 
 
-def rand_jump(rng, a, b):
+def rand_jump(rng, a, b, xmin=None):
+    """Jump parameters (halves / quarters); a third of them with a zero, negative or edge parameter."""
+    kind = rng.choice(['any', 'any', 'any', 'any', 'lo0', 'hi0', 'val0', 'neglo', 'loxmin'])
     lo = F(rng.randint(2 * a - 2, 2 * b + 2), 2)
     hi = lo + rng.choice([F(1, 2), F(1), F(2)])
     val = rng.choice([F(1, 2), F(1, 4), F(-1, 4), F(1), F(-1, 2) if hi - lo > F(1, 2) else F(1, 4)])
+    if kind == 'lo0':
+        lo, hi = F(0), rng.choice([F(1, 2), F(1), F(2), F(4)])
+    elif kind == 'hi0':
+        hi, lo = F(0), -rng.choice([F(1, 2), F(1), F(2)])
+    elif kind == 'val0':
+        val = F(0)
+    elif kind == 'neglo':
+        lo, hi = -rng.choice([F(1, 2), F(1), F(3)]), rng.choice([F(1), F(2), F(3)])
+    elif kind == 'loxmin' and xmin is not None:
+        lo, hi = xmin, xmin + rng.choice([F(1), F(2)])
+    if val <= lo - hi:
+        val = F(1, 4)
     return lo, hi, val
 
 
@@ -504,7 +523,7 @@ def tseval_records(rng, n):
         xmax = F(4 * b + rng.choice([0, 0, 1, 2, 3]), 4)
         coeff = [[F(rng.randint(-4, 4), rng.choice([1, 1, 2])) for _ in range(nc)] for _ in range(nt)]
         on = rng.random() < 0.6
-        lo, hi, val = rand_jump(rng, a, b)
+        lo, hi, val = rand_jump(rng, a, b, xmin)
         ign = on and rng.random() < 0.25
         k = rng.randint(1, 6)
         xp = [[F(rng.randint(4 * a, 4 * b), rng.choice([1, 2, 4, 4])) for _ in range(k)] for _ in range(nt)]
@@ -665,10 +684,27 @@ def tset_law_records(rng, nprng, n):
         if jump:
             lo = x0 + nprng.uniform(0.2, 0.8) * nx
             wdt = nprng.uniform(0.5, 3.0)
-            kw['xjumplo'], kw['xjumphi'], kw['xjumpval'] = lo, lo + wdt, nprng.uniform(-0.4, 0.8) * min(1.0, wdt)
+            val = nprng.uniform(-0.4, 0.8) * min(1.0, wdt)
+            # a third of the jumps have a zero / negative / edge parameter
+            special = rng.choice(['', '', '', '', 'lo0', 'lo0int', 'hi0', 'val0', 'neglo', 'loxmin'])
+            if special == 'lo0':
+                lo = 0.0
+            elif special == 'lo0int':
+                lo, wdt = 0, rng.choice([2, 5, 40])
+            elif special == 'hi0':
+                lo, wdt = -wdt, wdt
+            elif special == 'val0':
+                val = 0.0
+            elif special == 'neglo':
+                lo = -nprng.uniform(0.5, 5.0)
+                wdt = -lo + nprng.uniform(0.5, 6.0)
+            elif special == 'loxmin':
+                lo = float(xpos.min())
+            kw['xjumplo'], kw['xjumphi'], kw['xjumpval'] = lo, lo + wdt, val
         if it % 7 == 0:
             kw['xmin'], kw['xmax'] = x0 - 2.0, x0 + nx + 1.5
-        info = {'basis': basis, 'nc': nc, 'nTrace': nt, 'nx': nx, 'jump': bool(jump), 'seed_index': it}
+        info = {'basis': basis, 'nc': nc, 'nTrace': nt, 'nx': nx, 'jump': bool(jump), 'seed_index': it,
+                'jumpargs': [repr(kw.get(kk)) for kk in ('xjumplo', 'xjumphi', 'xjumpval')]}
         try:
             t = (xy2traceset if it % 2 else TraceSet)(xpos, ypos, **kw)
             _, y1 = t.xy(xpos)
